@@ -119,7 +119,7 @@ fn main() {
     );
     eng.assume("release profile semantics (overflow-checks off, debug-assertions off), as a user of the shipped crate sees it");
     eng.assume("numeric parameters capped at 9999 here; magnitude-driven work is C03's subject; timeouts and heap-cap hits (2 GiB) are counted as inconclusive, not as violations (C03 owns time and memory)");
-    eng.generated_min(PartCfg::new("streams", 240_000, 6_000_000).isolated().timeout_ms(30_000).heapcap_is_violation(false), || cases(40), check, classify, minimize);
-    eng.generated_min(PartCfg::new("long_streams", 4_000, 150_000).isolated().timeout_ms(60_000).heapcap_is_violation(false), || cases(400), check, classify, minimize);
+    eng.generated_min(PartCfg::new("streams", 900_000, 12_000_000).isolated().timeout_ms(30_000).heapcap_is_violation(false), || cases(40), check, classify, minimize);
+    eng.generated_min(PartCfg::new("long_streams", 15_000, 300_000).isolated().timeout_ms(60_000).heapcap_is_violation(false), || cases(400), check, classify, minimize);
     eng.run();
 }
